@@ -124,7 +124,28 @@ class SymExec:
         out.extend(states)
         return states
 
+    def _simplify(self, s, st):
+        """conditional expressions whose test is decided by the atoms are replaced by the branch taken (wherever they occur in the statement)"""
+        if isinstance(s, (ast.If, ast.For, ast.While, ast.With, ast.Try)) or not any(isinstance(n, ast.IfExp) for n in ast.walk(s)):
+            return s
+        import copy
+        af = self.atom_fn(st)
+
+        class T(ast.NodeTransformer):
+            def visit_IfExp(self, n):
+                self.generic_visit(n)
+                v = eval3(n.test, {}, af)
+                if v is UNK:
+                    return n
+                return n.body if v else n.orelse
+        out = T().visit(copy.deepcopy(s))
+        for n in ast.walk(out):
+            if isinstance(n, ast.UnaryOp) and isinstance(n.op, ast.USub) and isinstance(n.operand, ast.Constant):
+                pass
+        return ast.fix_missing_locations(out)
+
     def _stmt(self, s, st):
+        s = self._simplify(s, st)
         if isinstance(s, ast.Assign) and len(s.targets) == 1:
             t = s.targets[0]
             self._calls(s.value, st)
@@ -172,6 +193,8 @@ class SymExec:
             v = eval3(s.test, {}, self.atom_fn(st))
             if v is UNK and st.exprs:
                 v = eval3(self._resolve(s.test, st), {}, self.atom_fn(st))
+            if v is UNK and st.exprs:
+                v = self._nullness_test(s.test, st)
             res = []
             if v is UNK:
                 for pol, body in ((True, s.body), (False, s.orelse)):
@@ -205,7 +228,10 @@ class SymExec:
         names = {x.id for x in ast.walk(e) if isinstance(x, ast.Name)}
         if depth <= 0 or not (names & set(st.exprs)):
             return e
-        exprs = st.exprs
+        base = self._base_names()
+        exprs = {k: v for k, v in st.exprs.items() if k not in base}
+        if not (names & set(exprs)):
+            return e
 
         class T(ast.NodeTransformer):
             def visit_Name(self, n):
@@ -213,6 +239,43 @@ class SymExec:
                     return copy.deepcopy(exprs[n.id])
                 return n
         return T().visit(copy.deepcopy(e))
+
+    def _nullness_test(self, test, st):
+        """`X is None` / `X is not None` on a local whose value on this path is a literal / a display / a slice or arithmetic result"""
+        neg = False
+        t = test
+        if isinstance(t, ast.UnaryOp) and isinstance(t.op, ast.Not):
+            neg, t = True, t.operand
+        if not (isinstance(t, ast.Compare) and len(t.ops) == 1 and isinstance(t.ops[0], (ast.Is, ast.IsNot)) and isinstance(t.left, ast.Name)
+                and isinstance(t.comparators[0], ast.Constant) and t.comparators[0].value is None):
+            return UNK
+        e = t.left
+        for _ in range(6):
+            if isinstance(e, ast.Name) and e.id in st.exprs:
+                e = st.exprs[e.id]
+            else:
+                break
+        if isinstance(e, ast.Constant):
+            isnone = e.value is None
+        elif isinstance(e, (ast.Tuple, ast.List, ast.Dict, ast.Set, ast.JoinedStr, ast.BinOp)) or (isinstance(e, ast.Subscript) and isinstance(e.slice, ast.Slice)):
+            isnone = False
+        else:
+            return UNK
+        v = isnone if isinstance(t.ops[0], ast.Is) else not isnone
+        return (not v) if neg else v
+
+    def _base_names(self):
+        """names the atom / symbol tables are written in (`R1` of `R1.is_reverse`): they are never replaced by what they were assigned from"""
+        b = getattr(self, '_base', None)
+        if b is None:
+            b = set()
+            for t in list(self.atoms) + list(self.symbols):
+                try:
+                    b |= {x.id for x in ast.walk(ast.parse(t, mode='eval')) if isinstance(x, ast.Name)}
+                except SyntaxError:
+                    pass
+            self._base = b
+        return b
 
     def _calls(self, e, st):
         for c in walk_no_nested(e):
